@@ -234,3 +234,8 @@ if z3 is not None:
     for _c in ("Euler3D", "GillespieGraph"):
         for _f in ("engineexport_iterate", "engineexport_iterate_n", "engineexport_run"):
             CASES.append(api_case(_f, _c))
+    for _c in ("EulerGraph", "TauLeap3D", "TauLeapGraph", "Gillespie3D"):       # thorough tier: the remaining classes
+        for _f in ("engineexport_iterate", "engineexport_iterate_n", "engineexport_run"):
+            _k = api_case(_f, _c)
+            _k.thorough_only = True
+            CASES.append(_k)
